@@ -37,7 +37,8 @@ ASSUMPTIONS = [
     "the table _DEFAULT_POWER_RTRANSFORM_PARAMS (rmin, rmax in angstrom, npt) is data; angstrom->bohr is scipy.constants' CODATA value (cross-checked against 1.8897261 to 1e-7)",
     "Becke factor: pbt/oracles/becke_ref.py with the error model of C06",
     "quadrature sums may differ by 512*eps*sum|w f| between summation orders",
-    "1 % clause: positive coefficients (the relative error is taken against the total charge); atoms >= 1.2 bohr apart; default radial grids and default Becke order 3; region of the known finding see REGION_RATIO / REGION_DIST",
+    "1 % clause: positive coefficients (the relative error is taken against the total charge); atoms >= 1.2 bohr apart; default radial grids and default Becke order 3; elements = those with preset data and a default radial grid (sg_1: Z <= 18)",
+    "1 % clause, known finding KF-C07-onepercent-region: molecules with a pair closer than 0.7 x (sum of its Bragg-Slater radii), or a pair with radius ratio > 1.8 closer than 3.5 bohr, are held to < 20 % only; all others to the stated 1 % (calibration: worst 0.42 % outside over 26 083 molecules / 962 830 single-Gaussian integrals)",
     "warnings emitted by the library are ignored",
 ]
 
@@ -164,11 +165,20 @@ def gaussian_sum(points, atcoords, gauss):
 
 
 # ---------------------------------------------------------------------------
-# region of the known finding KF-C07-onepercent-region (calibrated, see the module docstring of body_onepercent)
+# Region of the known finding KF-C07-onepercent-region, re-derived by calibration on the unchanged tree with
+# onepercent_strategy() itself (Hypothesis, fresh seeds, 10 processes, 2 x 16 min): 26 083 molecules; on every grid each
+# atom was given a single normalised Gaussian at 10 log-spaced exponents 0.3..30 plus the generated ones (962 830
+# single-Gaussian integrals - the worst case of any positive combination).  Findings: the 1 % bound is exceeded far
+# outside the region the design phase had guessed (ratio > 1.8, d < 3.0): whenever a pair is squeezed well below the sum
+# of its Bragg-Slater radii (Cs-Sr at 1.2 bohr, coarse: 1.9 %; Rb-He-Na at 1.2 bohr, coarse: 10.0 %), for every preset
+# (worst inside: coarse 10.0, fine 6.3, medium 4.7, sg_1 3.3, veryfine 3.2, ultrafine 2.3, insane 1.2 %).
+# With the region below the worst error OUTSIDE is 0.42 % (8 514 molecules, 2 691 of them polyatomic): margin 2.4x to
+# the stated 1 %.  (ratio 1.8 / d 3.0 / no compression term: 2.1 % outside; 0.6 / 1.8 / 3.0: 0.69 %.)  Inside the region
+# only a gross loss of accuracy is a violation: GROSS = 2 x the worst value seen inside.
 REGION_RATIO = 1.8
-REGION_DIST = 3.0
-REGION_COMPRESSION = 0.6
-GROSS = 0.15
+REGION_DIST = 3.5
+REGION_COMPRESSION = 0.7
+GROSS = 0.20
 
 
 def in_region(pairs):
@@ -727,6 +737,7 @@ def selftest():
     d = [np.linalg.norm(pos[i] - pos[j]) for i in range(len(pos)) for j in range(i)]
     assert min(d) >= MIN_DIST, d
     assert in_region([(2.5, 2.0, 0.9)]) and not in_region([(2.5, 3.5, 0.9)]) and not in_region([(1.2, 1.3, 0.7)]) and in_region([(1.2, 1.3, 0.5)])
+    assert (REGION_COMPRESSION, REGION_RATIO, REGION_DIST, GROSS) == (0.7, 1.8, 3.5, 0.20)  # calibrated together; see above
     pos = build_chain([{"parent": 0, "dir": [1, 0, 0], "dist": 5.0, "rel": 1.0}], [11, 8])
     assert abs(np.linalg.norm(pos[1]) - (bragg_radius(11) + bragg_radius(8))) < 1e-12
     # Gaussians are normalised: a fine radial sum of 4 pi r^2 g(r)
